@@ -89,6 +89,15 @@ def rule_pair_detach(ctx: RuleContext, p: Program, rid: str) -> None:
                 for t, a in zip(tgt.elts, it.args):
                     if isinstance(t, ast.Name) and isinstance(a, ast.Name):
                         pairs.append((t.id, a.id))
+            elif isinstance(it, ast.Call) and norm(it.func) in ('itertools.chain', 'chain') and isinstance(tgt, ast.Name):
+                # one loop over several collections: its variable stands for an element of each of them
+                for a in it.args:
+                    if isinstance(a, ast.Name):
+                        pairs.append((tgt.id, a.id))
+            elif isinstance(it, (ast.Tuple, ast.List)) and isinstance(tgt, ast.Name) and any(isinstance(x, ast.Starred) for x in it.elts):
+                for x in it.elts:
+                    if isinstance(x, ast.Starred) and isinstance(x.value, ast.Name):
+                        pairs.append((tgt.id, x.value.id))
             for a, b in pairs:
                 elem_of[a] = b
             loop_vars[id(lp)] = pairs
@@ -516,6 +525,7 @@ def run(ctx: RuleContext, p: Program) -> None:
     ctx.try_rule(claimorder.rule_splice_order, p, 'SPLICE-ORDER')
     from . import round4
     ctx.try_rule(round4.rule_replace_store, p, 'REPLACE-STORE')
+    ctx.try_rule(round4.rule_id_cmp, p, 'ID-CMP')
     ctx.try_rule(rule_own_tree, p, 'OWN-TREE')
     from .c19 import rule_detach_gate
     ctx.try_rule(rule_detach_gate, p, 'DETACH-GATE')
